@@ -5,9 +5,9 @@
    log rollers, listening sockets with their descriptors, running proxy health-check workers);
    [attempt m step e c g] is casket.Start / ValidateAndExecuteDirectives(justValidate) / Instance.Restart /
    the SIGUSR1 handler (loader first, then purge / Restart / restore) applied to the abstract configuration
-   [c] in environment [e]; [attempt_panic] is a reload during which a plugin's setup panics (contained by
-   Restart); [run] folds a history of attempts, contained panics and htpasswd-file rewrites.  All statements
-   quantify over ALL configurations, states and histories. *)
+   [c] in environment [e]; [attempt_panic] is a reload during which a plugin's setup panics (Restart turns the
+   panic into an error); [run] folds a history of attempts, contained panics and htpasswd-file rewrites.  All
+   statements quantify over ALL configurations, states and histories. *)
 Require Import V.Lib V.C08_Model V.C08_Proofs.
 Open Scope N_scope.
 
@@ -162,24 +162,56 @@ Proof. exact htpasswd_cache_witness. Qed.
 
 (* ---- 6. the frame theorem ----
    Full statement "after a failed attempt the state equals the state before, up to the transparent
-   htpasswd cache" is FALSE of the code as it is for two registries: the roller map (F-C08-3, open) and the
-   list of running proxy health-check workers (F-C08-5, open: the worker is started while `proxy` is parsed
-   and only the OnShutdown callback of an instance that ran stops it).  The listening sockets with their
-   descriptors, the event-hook registry and the htpasswd cache are not among the witnesses: see 1, 3 and 5. *)
+   htpasswd cache" is FALSE of the code as it is for the two registries that STARTUP CALLBACKS write to: the
+   roller map (F-C08-3, open) and the list of running proxy health-check workers (F-C08-5f, open: a discarded
+   instance never runs its shutdown callbacks).  The listening sockets with their descriptors, the event-hook
+   registry and the htpasswd cache are not among the witnesses: see 1, 3 and 5. *)
 Theorem C08_failed_attempt_frame_refuted :
   exists c g', attempt Load 1 [] c g0 = (RErr, g') /\ g_rollers g' <> g_rollers g0.
 Proof. exact frame_refuted. Qed.
 Print Assumptions C08_failed_attempt_frame_refuted.
 
-Theorem C08_failed_attempt_leaves_health_checkers_refuted :
-  (exists g', attempt Load 1 [] (mkcfg 1 [EProxy] [ABusy]) g0 = (RErr, g') /\ g_probers g' = [1]) /\
-  (exists g', attempt Validate 1 [] (mkcfg 1 [EProxy; EBad] [AEph 1]) g0 = (RErr, g') /\ g_probers g' = [1]) /\
+(* ---- 6b. health-check workers (fix of F-C08-5/5b-5e: they are started by the startup callbacks of the
+        instance, not while `proxy` is parsed).  A validation and an API-driven execution of the directives
+        start nothing, whatever their outcome (full).  A failed load / reload / SIGUSR1 reload leaves the worker
+        list EXACTLY as it was unless the attempt got as far as startServers with a proxy health check set up
+        and a listener that fails to bind ([probe_safe] on the part of the configuration the attempt reaches:
+        a configuration rejected by a directive, or by a failing startup callback of `log`, reaches no
+        listener) ... ---- *)
+Theorem C08_validation_starts_no_health_checker :
+  forall m step e c g r g',
+  (m = Validate \/ m = Execute) -> attempt m step e c g = (r, g') -> g_probers g' = g_probers g.
+Proof. exact validate_starts_nothing. Qed.
+Print Assumptions C08_validation_starts_no_health_checker.
+
+Theorem C08_failed_attempt_leaves_health_checkers_partial :
+  forall m step e c g r g',
+  probe_safe m (reached c) = true ->
+  attempt m step e c g = (r, g') -> r <> ROk -> g_probers g' = g_probers g.
+Proof. exact failed_attempt_probers. Qed.
+Print Assumptions C08_failed_attempt_leaves_health_checkers_partial.
+
+Example C08_failed_attempt_leaves_health_checkers_partial_nonvacuous :
+  (exists g', attempt Validate 1 [] (mkcfg 1 [EProxy; EBad] [AEph 1]) g0 = (RErr, g') /\ g_probers g' = []) /\
+  (exists g', attempt Validate 1 [] (mkcfg 1 [EProxy] [AEph 1]) g0 = (ROk, g') /\ g_probers g' = []) /\
+  (exists g', attempt Load 1 [] (mkcfg 1 [EProxy; EBad] [AEph 1; ABusy]) g0 = (RErr, g') /\ g_probers g' = []) /\
+  (exists g', attempt Load 1 [] (mkcfg 1 [ELog 1 1 false; EProxy] [AEph 1]) g0 = (RErr, g') /\ g_probers g' = []) /\
   (exists g1 g2, attempt Load 1 [] (mkcfg 1 [EProxy] [AEph 1]) g0 = (ROk, g1) /\ g_probers g1 = [1] /\
-                 attempt Reload 2 [] (mkcfg 2 [EProxy; EBad] [AEph 1]) g1 = (RErr, g2) /\ g_probers g2 = [1; 2]) /\
-  (exists g1 g2, attempt Load 1 [] (mkcfg 1 [EProxy] [AEph 1]) g0 = (ROk, g1) /\
-                 attempt Sigusr1 2 [] (mkcfg 2 [EProxy] [AEph 1; ABusy]) g1 = (RErr, g2) /\ g_probers g2 = [1; 2]) /\
+                 attempt Reload 2 [] (mkcfg 2 [EProxy; EBad] [AEph 1]) g1 = (RErr, g2) /\ g_probers g2 = [1]) /\
+  (exists g1 g2, attempt Load 1 [] (mkcfg 1 [EProxy] [AEph 1]) g0 = (ROk, g1) /\ g_probers g1 = [1] /\
+                 attempt Sigusr1 2 [] (mkcfg 2 [EProxy; EBad] [AEph 1]) g1 = (RErr, g2) /\ g_probers g2 = [1]) /\
   (exists g1 g2, attempt Load 1 [] (mkcfg 1 [EProxy] [AEph 1]) g0 = (ROk, g1) /\
                  attempt Reload 2 [] (mkcfg 2 [EProxy] [AEph 1]) g1 = (ROk, g2) /\ g_probers g2 = [2]).
+Proof. exact health_checkers_witness. Qed.
+
+(* ... and without the side condition the statement is FALSE of the code as it is (F-C08-5f, open): a listener
+   that fails to bind after the startup callbacks ran leaves the workers of the rejected configuration probing *)
+Theorem C08_failed_attempt_leaves_health_checkers_refuted :
+  (exists g', attempt Load 1 [] (mkcfg 1 [EProxy] [ABusy]) g0 = (RErr, g') /\ g_probers g' = [1]) /\
+  (exists g1 g2, attempt Load 1 [] (mkcfg 1 [EProxy] [AEph 1]) g0 = (ROk, g1) /\ g_probers g1 = [1] /\
+                 attempt Reload 2 [] (mkcfg 2 [EProxy] [AEph 1; ABusy]) g1 = (RErr, g2) /\ g_probers g2 = [1; 2]) /\
+  (exists g1 g2, attempt Load 1 [] (mkcfg 1 [EProxy] [AEph 1]) g0 = (ROk, g1) /\
+                 attempt Sigusr1 2 [] (mkcfg 2 [EProxy] [AEph 1; ABusy]) g1 = (RErr, g2) /\ g_probers g2 = [1; 2]).
 Proof. exact health_checkers_refuted. Qed.
 Print Assumptions C08_failed_attempt_leaves_health_checkers_refuted.
 
@@ -188,14 +220,14 @@ Print Assumptions C08_failed_attempt_leaves_health_checkers_refuted.
    mutex, the socket table with its descriptor counts and the name supply are EXACTLY as before
    ([same_but_leaks]); and of the two registries that are still written to, nothing is taken away or changed:
    every roller is as before (rollers are only added), the worker list is the list before followed by workers
-   of this very attempt (none is stopped), and it is untouched when the attempt reaches no proxy directive. *)
+   of this very attempt (none is stopped), and it is untouched under the side condition of 6b. *)
 Theorem C08_failed_attempt_frame_without_rollers :
   forall m step e c g r g',
   wf g -> attempt m step e c g = (r, g') -> r <> ROk ->
   same_but_leaks g g' /\
   (forall f x, assoc f (g_rollers g) = Some x -> assoc f (g_rollers g') = Some x) /\
   (exists k, g_probers g' = g_probers g ++ repeat step k) /\
-  (no_proxy (c_effs (reached c)) = true -> g_probers g' = g_probers g).
+  (probe_safe m (reached c) = true -> g_probers g' = g_probers g).
 Proof. exact failed_attempt_frame_without_rollers. Qed.
 Print Assumptions C08_failed_attempt_frame_without_rollers.
 
@@ -209,8 +241,8 @@ Proof.
   - split; [vm_compute; reflexivity|]. split; vm_compute; discriminate.
 Qed.
 
-(* the same from any two states that differ in these registries only: an attempt reads neither the roller map
-   nor the worker list (it only extends them, and takes out the workers of the instance it stops) *)
+(* the same from any two states that differ in the roller map and the worker list only: an attempt reads neither
+   (it only extends them, and takes out the workers of the instance it stops) *)
 Theorem C08_attempt_ignores_rollers_and_workers :
   forall m step e c g1 g2 r g1',
   cache_ok g1 -> cache_ok g2 -> same_but_leaks g1 g2 -> attempt m step e c g1 = (r, g1') ->
@@ -231,9 +263,9 @@ Qed.
    failed attempt that does not REACH the remaining leak.  [reached c] is the part of the configuration an
    attempt can execute (nothing of a configuration that does not parse; of one with a bad directive only the
    directives before it, minus the startup callbacks they merely schedule); in it — unless the attempt ends
-   after the directives (validate, execute) — no log roller.  Listeners, `on` hooks and htpasswd lines are no
-   side condition: whatever the failing attempt opened it closed again, whatever it registered it took out
-   again, whatever it cached is consulted only for the version of the file that is on disk.
+   after the directives (validate, execute) — no log roller, and no proxy health check together with a listener
+   that fails to bind.  Listeners as such, `on` hooks and htpasswd lines are no side condition: whatever the failing attempt opened it closed again, whatever it
+   registered it took out again, whatever it cached is consulted only for the version of the file that is on disk.
    [wf] (nobody serves the foreign address, every socket of the table has a descriptor, what is cached was
    parsed) holds in every reachable state, see 9. *)
 Theorem C08_attempt_depends_only_on_what_it_reaches :
@@ -285,14 +317,14 @@ Example C08_valid_after_failures_partial_nonvacuous :
 Proof. vm_compute. repeat split; discriminate. Qed.
 
 (* FULL, NO SIDE CONDITION on the configurations, for the state without the two leaking registries: over ALL
-   histories of attempts that return and fail (every mode, every kind of failure at every stage — [returns_op]
-   only excludes the contained panics of 10) and of file rewrites, from ANY reachable state, the state is the
-   state before the history up to the cache, the roller map and the worker list; so every later attempt — in
-   particular loading a valid configuration — has the outcome it has without the failures (from [g0]: in a
-   fresh process) and the same effect on everything but these three. *)
+   histories of attempts that fail (every mode, every kind of failure at every stage, the contained panics of 10
+   included) and of file rewrites, from ANY reachable state, the state is the state before the history up to the
+   cache, the roller map and the worker list; so every later attempt — in particular loading a valid
+   configuration — has the outcome it has without the failures (from [g0]: in a fresh process) and the same
+   effect on everything but these three. *)
 Theorem C08_valid_after_failures_without_rollers :
   forall h step0 e g rs e' g',
-  wf g -> forallb returns_op h = true ->
+  wf g ->
   run step0 h (e, g) = (rs, (e', g')) -> attempts_failed h rs ->
   same_but_leaks g g' /\ e' = writes h e /\
   forall m step v r ga, attempt m step (writes h e) v g = (r, ga) ->
@@ -305,8 +337,9 @@ Example C08_valid_after_failures_without_rollers_nonvacuous :
             OAttempt Sigusr1 {| c_id := 2; c_parse := PLoader; c_effs := []; c_addrs := [AEph 1] |};
             OWrite 1 (users [(1, 1)]);
             OAttempt Execute (mkcfg 3 [EProxy; EBad] [AEph 1]);
+            OPanic false (mkcfg 5 [EOn 1; EProxy] [AEph 1]);
             OAttempt Load (mkcfg 4 [ELog 1 1 true; ELog 3 7 false] [AEph 2])] in
-  forallb returns_op h = true /\ forallb harmless_op h = false /\
+  forallb harmless_op h = false /\
   attempts_failed h (fst (run 1 h ([(1, users [(1, 1)])], g0))).
 Proof. vm_compute. repeat split; discriminate. Qed.
 
@@ -347,36 +380,37 @@ Example C08_valid_config_loads_nonvacuous :
   cfg_valid [(1, users [(1, 1)])] (mkcfg 7 [EOn 1; ELog 1 50 true; EAuth 1 1] [AEph 1; AEph 2]) = true.
 Proof. vm_compute. reflexivity. Qed.
 
-(* ---- 10. a panic contained by Restart (F-C08-6, open) ----
-   Restart recovers a panic of a plugin's setup and returns (nil, nil); the deferred clean-up of
-   startWithListenerFds and the SIGUSR1 handler both key on err != nil.  [attempt_panic sig] is such a reload
-   (through the API, or through SIGUSR1 when [sig]).  The frame is FALSE for it: the half-made instance stays in
-   the instance list, the hooks registered so far stay, and after SIGUSR1 the hooks of the running
-   configuration are gone. *)
-Theorem C08_contained_panic_frame_refuted :
+(* ---- 10. a panic contained by Restart (fix of F-C08-6/6b) ----
+   Restart turns a panic of a plugin's setup into an error: it returns the old instance and the error, the
+   clean-up of startWithListenerFds runs (it is keyed on not having reached the end), the SIGUSR1 handler
+   restores the registry it purged.  [attempt_panic sig] is such a reload (through the API, or through SIGUSR1
+   when [sig]).  FULL frame, every configuration, every well-formed state: it never reports success and the
+   ENTIRE state is as before up to what the transparent htpasswd cache holds — no half-made instance in the
+   instance list, no hook of the rejected configuration, the hooks of the running configuration still there
+   after SIGUSR1, no listener, no worker, no roller (the startup callbacks are never reached).  It is a
+   failed reload of the configuration followed by a failing directive, so everything proved of failed attempts
+   holds of it; after ANY history including such panics a valid configuration still loads (8), no attempt
+   blocks (4) and the state is well-formed (9). *)
+Theorem C08_contained_panic_frame :
+  forall sg step e c g r g',
+  wf g -> attempt_panic sg step e c g = (r, g') -> r <> ROk /\ same_but_cache g g'.
+Proof. exact contained_panic_frame. Qed.
+Print Assumptions C08_contained_panic_frame.
+
+Theorem C08_contained_panic_is_a_failed_reload :
+  forall sg step e c g,
+  attempt_panic sg step e c g = attempt (if sg then Sigusr1 else Reload) step e (with_panic c) g.
+Proof. exact attempt_panic_is_attempt. Qed.
+Print Assumptions C08_contained_panic_is_a_failed_reload.
+
+Example C08_contained_panic_frame_nonvacuous :
   exists g1 g2 g3,
     attempt Load 1 [] (mkcfg 1 [EOn 1] [AEph 1]) g0 = (ROk, g1) /\ g_hooks g1 = [1] /\ length (g_insts g1) = 1%nat /\
     attempt_panic false 2 [] (mkcfg 2 [EOn 1] [AEph 1]) g1 = (RErr, g2) /\
-    g_hooks g2 = [1; 2] /\ length (g_insts g2) = 2%nat /\
+    g_hooks g2 = [1] /\ length (g_insts g2) = 1%nat /\
     attempt_panic true 3 [] (mkcfg 3 [EOn 1] [AEph 1]) g1 = (RErr, g3) /\
-    g_hooks g3 = [3] /\ length (g_insts g3) = 2%nat.
-Proof. exact contained_panic_refuted. Qed.
-Print Assumptions C08_contained_panic_frame_refuted.
-
-(* Strongest true statement (every configuration, every well-formed state): it never reports success, and it
-   leaves alone the socket table with its descriptor counts, the mutex, every roller and every instance that
-   was running (still in the list, its listeners open); at most ONE half-made instance without servers is
-   appended.  After ANY history including such panics a valid configuration still loads (8), no attempt
-   blocks (4) and the state is well-formed (9). *)
-Theorem C08_contained_panic_partial :
-  forall sg step e c g r g',
-  wf g -> attempt_panic sg step e c g = (r, g') ->
-  r <> ROk /\ g_socks g' = g_socks g /\ g_next g' = g_next g /\ g_htlock g' = g_htlock g /\
-  (forall f x, assoc f (g_rollers g) = Some x -> assoc f (g_rollers g') = Some x) /\
-  (g_insts g' = g_insts g \/ exists z, g_insts g' = g_insts g ++ [z] /\ i_servers z = []) /\
-  (forall i, In i (g_insts g) -> alive g i -> alive g' i).
-Proof. exact contained_panic_partial. Qed.
-Print Assumptions C08_contained_panic_partial.
+    g_hooks g3 = [1] /\ length (g_insts g3) = 1%nat.
+Proof. exact contained_panic_witness. Qed.
 
 (* ---- 9. the well-formedness used above is an invariant of every history ---- *)
 Theorem C08_reachable_states_wellformed :
